@@ -9,7 +9,7 @@
  * blocking waitpid issued while a command runs), and can pre-load the caller's `status` variable
  * (which wait() leaves uninitialised) with a chosen value.
  *
- * usage:  c30h run <logfile> <mode> <threads> <jobs-per-thread> <seed>   (plans on stdin, see below)
+ * usage:  c30h run <logfile> <mode> <threads> <seed>   (plans on stdin, see below)
  *         c30h child e <code> <sleep_us> | c30h child s <signal> <sleep_us>
  * modes:  A  workers block SIGCHLD, a dedicated thread receives it (handler in another thread)
  *         B  one worker, SIGCHLD never blocked (handler interrupts the waiting thread)
@@ -41,6 +41,7 @@
 #include <sys/syscall.h>
 #include <sys/wait.h>
 #include <thread>
+#include <time.h>
 #include <unistd.h>
 #include <vector>
 #include "TFEL/System/SystemError.hxx"
@@ -50,6 +51,7 @@
 static int log_fd = -1;
 static char mode = 'A';
 static std::atomic<long> progress{0};
+static std::atomic<unsigned long long> hook_rng{1};
 
 struct Plan {
   int thread = -1, iter = -1;
@@ -93,6 +95,15 @@ extern "C" void tfel_verif_processmanager_event(const char* const kind, const in
   char buf[96];
   char* p = buf;
   if (std::strcmp(kind, "set") == 0) {
+    if (in_handler) {
+      // seeded delay between the handler's successful waitpid and its write of the record: widens
+      // the window in which wait() can see ECHILD while the status is still in flight
+      const auto r = hook_rng.fetch_add(0x9E3779B97F4A7C15ULL) * 6364136223846793005ULL >> 33;
+      if (r % 3 == 0) {
+        struct timespec ts = {0, static_cast<long>((r / 3) % 1500) * 1000L};
+        ::nanosleep(&ts, nullptr);
+      }
+    }
     p = put_str(p, in_handler ? "Sh " : "Sw ");
     p = put_int(p, pid);
     *p++ = ' ';
@@ -317,10 +328,14 @@ int main(int argc, char** argv) {
   (void)tfel::system::SignalManager::getSignalManager();
   std::atomic<bool> stop_sig{false};
   std::thread sigthread;
+  hook_rng = static_cast<unsigned long long>(std::atoll(argv[5])) * 2654435761ULL + 12345ULL;
   if (mode == 'A') {
     sigthread = std::thread([&stop_sig] {
       while (!stop_sig.load()) ::usleep(2000);  // SIGCHLD is delivered here
     });
+  }
+  if (mode != 'B') {
+    // A: only the dedicated thread takes SIGCHLD; C: only threads inside the interposed waitpid do
     sigset_t chld;
     sigemptyset(&chld);
     sigaddset(&chld, SIGCHLD);
